@@ -291,6 +291,41 @@ theorem stream_correct_eof {acc : NodeAccess N} {A : Aut σ} {s : Store} {den : 
   intro kv _
   simp [prItem, eofLift_run_start]
 
+/-- the lifted automaton inherits the pruning contract -/
+theorem eofLift_canSound (A : Aut σ)
+    (hCan : ∀ x, A.canMatch x = false → ∀ w, A.isMatch (A.run x w) = false ∧ A.eofMatch (A.run x w) = false) :
+    ∀ x, (eofLift A).canMatch x = false → ∀ w, (eofLift A).isMatch ((eofLift A).run x w) = false := by
+  intro x hx w
+  obtain ⟨x, b⟩ := x
+  rw [eofLift_run]
+  have := hCan x hx w
+  simp only [eofLift]
+  split
+  · exact this.2
+  · exact this.1
+
+/-- transport of ANY stream-correctness statement about `eofLift A` (over any node access, any
+list `L` of entries) to the hooked automaton `A` itself -/
+theorem eof_transport {acc : NodeAccess N} {A : Aut σ} {root : Nat} {min max : Bound} {L : KV}
+    (h : ∃ s0, streamNew acc (eofLift A) root min max = some s0 ∧ ∃ M, ∀ fuel, M ≤ fuel →
+      streamCollect acc (eofLift A) root fuel s0 [] =
+        some ((L.filter fun kv => lowerOK min kv.1 && upperOK max kv.1 && (eofLift A).accepts kv.1).map
+          fun kv => (kv.1, kv.2, (eofLift A).run (eofLift A).start kv.1))) :
+    ∃ s0, streamNew acc A root min max = some s0 ∧ ∃ M, ∀ fuel, M ≤ fuel →
+      streamCollect acc A root fuel s0 [] =
+        some ((L.filter fun kv => lowerOK min kv.1 && upperOK max kv.1 && A.acceptsEof kv.1).map
+          fun kv => (kv.1, kv.2, A.run A.start kv.1)) := by
+  obtain ⟨s0', hnew, M, hM⟩ := h
+  refine ⟨projS s0', by rw [streamNew_proj, hnew]; rfl, M, fun fuel hf => ?_⟩
+  have h := streamCollect_proj acc A root fuel s0' []
+  simp only [List.map_nil] at h
+  rw [h, hM fuel hf]
+  simp only [Option.map_some, List.map_map, eofLift_accepts]
+  congr 1
+  apply List.map_congr_left
+  intro kv _
+  simp [prItem, eofLift_run_start]
+
 /-- the new theorem specialises to the old one when there is no hook -/
 theorem stream_correct_eof_conservative (A : Aut σ) (hEof : ∀ x, A.acceptEof x = none) :
     A.acceptsEof = A.accepts := by
